@@ -115,7 +115,7 @@ def run_ops_impl(comp, ops, readonly=True, same_signal=False):
     return outs
 
 
-def expected_from_model(model_out, ops, taps, same_signal=False):
+def expected_from_model(model_out, ops, taps, same_signal=False, with_started=False):
     """Turn the driver's answer (frames of source indices per op) into expected integer sums."""
     parts = model_out.split(";")
     if len(parts) != len(ops):
@@ -125,7 +125,10 @@ def expected_from_model(model_out, ops, taps, same_signal=False):
     nF = 0
     maxoff = {}
     # signals must be long enough: recompute lengths per utterance lazily
+    started = []
     for op, part in zip(ops, parts):
+        part, _, st = part.partition("/")
+        started.append(st == "1")
         k = op[0]
         if k in "FB":
             u = 1000 + nF
@@ -141,4 +144,6 @@ def expected_from_model(model_out, ops, taps, same_signal=False):
             res.append([int(sum(w * x[i] for w, i in zip(taps, f))) for f in frames])
         if k == "z" or (k == "B" and part != "E"):
             utt += 1
+    if with_started:
+        return res, started
     return res
